@@ -23,6 +23,7 @@ import (
 	"sort"
 	"strconv"
 	"strings"
+	"sync"
 	"time"
 
 	"github.com/llir/llvm/asm"
@@ -1054,21 +1055,38 @@ func Run(tier, replay string) {
 	if tier == "thorough" {
 		bounds[0] = map[string]string{"MaxCalls": "3", "MaxOps": "6"}
 	}
-	for _, b := range bounds {
-		t = mbt.MustTLC(mbt.TLCOpts{Spec: "Operands", Cfg: "Operands.cfg", Consts: b, Timeout: 20 * time.Minute})
-		if len(t.Violated) > 0 {
-			mbt.Infra("Operands.tla with Dev={} violates %v: specification error", t.Violated)
-		}
-		rep.AddTLC(t)
-		t.Cleanup()
+	// the model runs proceed in the background while the configurations are replayed into the real code
+	var wg sync.WaitGroup
+	modelRuns := make([]*mbt.TLCResult, len(bounds))
+	for i := range bounds {
+		wg.Add(1)
+		go func(i int) {
+			defer wg.Done()
+			r := mbt.MustTLC(mbt.TLCOpts{Spec: "Operands", Cfg: "Operands.cfg", Consts: bounds[i], Workers: 6, Timeout: 20 * time.Minute})
+			if len(r.Violated) > 0 {
+				mbt.Infra("Operands.tla with Dev={} violates %v: specification error", r.Violated)
+			}
+			modelRuns[i] = r
+		}(i)
 	}
 	// every deviation the model knows must violate its property (the model is sensitive to it)
-	for _, dev := range []string{"HideBundles", "WrapArgs", "CacheSuccs", "CacheOps", "DedupSuccs", "StickySuccs"} {
-		t := mbt.MustTLC(mbt.TLCOpts{Spec: "Operands", Cfg: "OperandsDev_" + dev + ".cfg", Timeout: 10 * time.Minute})
-		if len(t.Violated) == 0 {
-			mbt.Infra("vacuity guard: Operands.tla with deviation %s violates nothing", dev)
+	wg.Add(1)
+	go func() {
+		defer wg.Done()
+		for _, dev := range []string{"HideBundles", "WrapArgs", "CacheSuccs", "CacheOps", "DedupSuccs", "StickySuccs"} {
+			r := mbt.MustTLC(mbt.TLCOpts{Spec: "Operands", Cfg: "OperandsDev_" + dev + ".cfg", Workers: 2, Timeout: 10 * time.Minute})
+			if len(r.Violated) == 0 {
+				mbt.Infra("vacuity guard: Operands.tla with deviation %s violates nothing", dev)
+			}
+			r.Cleanup()
 		}
-		t.Cleanup()
+	}()
+	joinModels := func() {
+		wg.Wait()
+		for _, r := range modelRuns {
+			rep.AddTLC(r)
+			r.Cleanup()
+		}
 	}
 
 	if int64(len(cases)) != nConfigStates-1-int64(len(tabs.Kinds)) {
@@ -1152,6 +1170,7 @@ func Run(tier, replay string) {
 		"slots are matched by identity of the marker value, not by position: a different but complete slot order is accepted",
 		"uses of a value nested inside a constant (constant expression, blockaddress) are not operands of the instruction in this library and are outside the quantifier (counted in rauw_skipped_use_nested_in_constant)",
 	}
+	joinModels()
 	rep.Finish()
 }
 
